@@ -1,0 +1,1 @@
+//! Hooks for property C25 (empty unless needed).
